@@ -151,12 +151,12 @@ class Project(object):
             parts = self._norm_cache[key]
         except KeyError:
             parts = []
-            while True:
-                if os.path.exists(os.path.join(root, '__init__.py')):
-                    parts.insert(0, os.path.basename(root))
-                    root = os.path.dirname(root)
-                else:
+            while root and os.path.exists(os.path.join(root, '__init__.py')):
+                parts.insert(0, os.path.basename(root))
+                parent = os.path.dirname(root)
+                if parent == root:  # the root directory
                     break
+                root = parent
 
             if not parts:
                 raise ImportError('Not a package: {} ({})'.format(filename, package))
